@@ -194,6 +194,7 @@ def norm_err(b):
 
 def run_batch(ctx, c, flavour="plain"):
     d = daemon_for(ctx, flavour)
+    log_off = len(d.log_text())      # the log is appended to across batches: only this batch's part is judged
     ctx.case_no += 1
     expected = {}
     nvms = {}
@@ -254,7 +255,7 @@ def run_batch(ctx, c, flavour="plain"):
     if not d.alive():
         problems.append("the daemon died during the batch: %s" % d.log_text()[-300:].decode("utf-8", "replace"))
     if flavour == "tsan":
-        lg = d.log_text()
+        lg = d.log_text()[log_off:]
         if b"ThreadSanitizer: data race" in lg:
             m = re.search(rb"WARNING: ThreadSanitizer: data race[^\n]*\n(?:[^\n]*\n){0,8}", lg)
             problems.append("ThreadSanitizer reports a data race in the daemon: %s" % (m.group(0)[:400].decode("utf-8", "replace") if m else ""))
